@@ -267,6 +267,8 @@ class ExprMixin(object):
       return VModule(q)
     if name in self.reg.classes and (self.spec_depth or mod is None):
       return VClass(name)
+    if mod is None and any(k.startswith(name + '.') for k in self.reg.externs):
+      return VModule(name)     # lemma functions may call assumed externs (math.floor, ...)
     if name == 'assume' and self.ghost_depth:
       return VBound('ghostassume', name)
     if name == 'prove' and self.ghost_depth:
